@@ -57,7 +57,8 @@ ReportsMatch(exp, obs, fm) ==
     /\ Len(exp) = Len(obs)
     /\ \A i \in DOMAIN exp : obs[i][1] = exp[i][1] /\ obs[i][2] \in {exp[i][2], fm[exp[i][2]]}
 
-Follow(h, m) == IF h \in DOMAIN m THEN m[h] ELSE h
+\* 0 = no trap (a handler cannot live on line 0: ON ERROR GOTO 0 / ON KEY() GOSUB 0 switch the trap off)
+Follow(h, m) == IF h # 0 /\ h \in DOMAIN m THEN m[h] ELSE h
 MapItem(it, m) == IF it.n \in DOMAIN m THEN [it EXCEPT !.n = m[it.n]] ELSE it
 MapTrace(tr, m) == [i \in DOMAIN tr |-> MapItem(tr[i], m)]
 
